@@ -162,7 +162,7 @@ def cli(argv=sys.argv, mode='output'):
     elif mode == 'string':
         return F2.to_dimacs()
     else:
-        F2.to_file(args.output, 'dimacs')
+        F2.to_file(args.output, 'dimacs', export_header=args.verbose)
 
 
 # Launcher
